@@ -690,7 +690,8 @@ class Streams:
 
     def real_only(self):
         import traceback
-        streams = [self.known_tensor4d, self.known_chain_take, self.known_locate_empty, self.interning, self.findex_fcoords, self.interface_sides, self.locate]
+        streams = [self.known_tensor4d, self.known_chain_take, self.known_locate_empty, self.known_locate_fit, self.unhandled_known, self.interning, self.findex_fcoords, self.interface_sides, self.locate,
+                   self.subtopo_interfaces, self.locate_histories]
         if not self.quick: streams += [self.locate] * 7 + [self.findex_fcoords, self.interface_sides]
         for f in streams:
             try:
@@ -720,6 +721,40 @@ class Streams:
             self.c.report_known_still_failing(entry, still)
         elif still:
             self.c.failing_input(sig, 'rectilinear([3,2]).locate(geom, [[-3,-3]], tol=1e-10, skip_missing=True) gives %s instead of an empty sample' % out, dict(op='known-locate-empty', real=out))
+
+    KNOWN_RERUN = ['lookup-own-element:swapdown-identity-not-swapped-back', 'container-take:chain-unsorted-indices', 'locate-no-point-located:indexerror',
+                   'locate-structured-affine-fit:error-underestimated']
+
+    def unhandled_known(self):
+        """every open entry of known_findings.json must have a recorded minimal input that is re-run (the known_* streams)"""
+        for e in self.c.findings:
+            if e.get('status') == 'open' and e.get('signature') not in self.KNOWN_RERUN:
+                self.c.log('note: open known finding %r (%s) has no recorded re-run in the C11 check' % (e.get('id'), e.get('signature')))
+                self.c.count('known-finding-without-rerun')
+
+    def known_locate_fit(self):
+        """StructuredTopology._locate accepts an almost affine geometry on the fit error measured at interior sample points: the image of the
+        located point misses a target at the end of the domain by more than tol (1.077e-3 for tol = 1e-3), no LocateError"""
+        from nutils import mesh
+        from nutils.topology import LocateError
+        sig = 'locate-structured-affine-fit:error-underestimated'
+        topo, x = mesh.rectilinear([1])
+        g = x + x**2 / 128
+        tol = 1e-3
+        try:
+            err = float(numpy.abs(numpy.asarray(topo.locate(g, [[0.]], tol=tol).eval(g))).max())
+            still = not err <= tol; out = 'image error %.4g' % err
+        except LocateError:
+            still = False; out = 'LocateError'     # raising is allowed by the property
+        except Exception as e:
+            still = True; out = type(e).__name__ + ': ' + str(e)[:100]
+        self.tick('explore:known-locate-fit'); self.c.case(('known-locate-fit',), nontrivial=True)
+        entry = self.c.match_known(sig)
+        if entry is not None:
+            self.c.report_known_still_failing(entry, still)
+        elif still:
+            self.c.failing_input(sig, 'mesh.rectilinear([1]): locate(x + x**2/128, [[0.]], tol=1e-3) returns a point with %s (> tol) instead of raising or iterating' % out,
+                                 dict(op='known-locate-fit', real=out, tol=tol))
 
     def known_chain_take(self):
         """References._Chain.take / PointsSequence._Chain.take with indices that are not sorted across the chain boundary"""
@@ -958,6 +993,15 @@ class Streams:
     def loc_tol(kw, gname):
         # eps is a tolerance in element coordinates: the geometry maps used here stretch by less than 4
         return kw['tol'] if 'tol' in kw else kw['eps'] * 4
+
+    # -------------------------------------------------------------- streams R5 / R6 (c11_hist.py)
+    def subtopo_interfaces(self):
+        from . import c11_hist
+        c11_hist.SubtopoStream(self).run()
+
+    def locate_histories(self):
+        from . import c11_hist
+        c11_hist.LocateHistories(self).run()
 
     # -------------------------------------------------------------- corpus: the recorded 4-D defect
     def known_tensor4d(self):
